@@ -86,12 +86,14 @@ def run_case(case, ctx):
     for inv in range(3):
         if inv == 2:
             # third invocation after modifying the SAME Hamiltonian object in place (rescaled first tensor)
-            H.A[0] *= 1.5
-            Hd = Hd * 1.5
+            # (conjugation of site 0 by a diagonal phase matrix: Hermitian, charge preserving, same spectrum, not proportional)
+            ph = np.exp(1j * np.linspace(0.3, 1.7, H.A[0].shape[0]))
+            H.A[0] *= (ph[:, None] * ph.conj()[None, :])[:, :, None, None]
+            Hd = dense.mpo_to_matrix(H.A)
             hb = ec.mpo_bytes(H)
-            E0, e_start, prev_last = 1.5 * E0, 1.5 * e_start, 1.5 * prev_last
-            escale = 1 + float(np.max(np.abs(Hd)))
-            eps = 1e-9 * escale
+            vcur = dense.mps_to_vector(psi.A)
+            e_start = float(np.vdot(vcur, Hd @ vcur).real)
+            prev_last = e_start
             ctx.cls('hamiltonian_modified_between_invocations')
         en = run_dmrg(algo, H, psi, sweeps, it)
         ctx.calls += 1
